@@ -163,7 +163,9 @@ def run_history(root, argvs, chooser):
     """All analyses of `argvs` in ONE simulated process (one fresh package copy).  Returns reports."""
     sim = Sim(chooser, max_steps=2000000)
     sim.sticky = 8
-    procs.World(sim, ncpu=4)
+    # no deadline may ever strike inside a history (the fresh-process reference runs in real time, where
+    # these searches take milliseconds): searching costs (almost) no simulated time here
+    procs.World(sim, ncpu=4, speeds=(1e-8,), start_delays=(0.0, 0.0, 1e-6), rtt=0.0)
     reports = []
 
     def body():
